@@ -269,10 +269,14 @@ func (x *xh) someGetAts(n int) {
 	tss := x.sampleTs(4)
 	for i := 0; i < n && len(keys) > 0; i++ {
 		ts := tss[x.c.Rng.Intn(len(tss))]
-		if ts == math.MaxUint64 {
+		if ts == math.MaxUint64 && x.c.Rng.Intn(3) != 0 {
 			ts = x.db.MaxVersion() + 1
 		}
-		x.getAt(keys[x.c.Rng.Intn(len(keys))], ts)
+		k := keys[x.c.Rng.Intn(len(keys))]
+		if x.c.Rng.Intn(12) == 0 {
+			k = nil // boundary: ErrEmptyKey
+		}
+		x.getAt(k, ts)
 	}
 }
 
